@@ -21,7 +21,7 @@ RULE = ("case = document built from value shapes {bare defined key, bare undefin
 ASSUMPTIONS = ["unique entry keys and unique field keys per entry (collisions are C09's subject)"]
 MIN = {"field_value_model": (30000, 300000), "metadata_model": (10000, 100000), "strings_unchanged": (10000, 100000)}
 
-DEFS = [("s", "{X}"), ("s", '"Y y"'), ("S", "{Z}"), ("t", "s"), ("t", "{a} # {b}"), ("s", "12")]
+DEFS = [("s", "{X}"), ("s", '"Y y"'), ("S", "{Z}"), ("t", "s"), ("t", "{a} # {b}"), ("s", "12"), ("s", "t"), ("u", "u")]
 NAMES = ["s", "S", "t", "u"]
 
 
@@ -33,7 +33,7 @@ def values():
 
 
 def exhaustive(tier):
-    return ("one entry with 1-2 fields over 17 value shapes x ordered lists of 0-2 definitions from 6 x each definition placed "
+    return ("one entry with 1-2 fields over 17 value shapes x ordered lists of 0-2 definitions from 8 (incl. chains, a 2-cycle and a self-reference) x each definition placed "
             "before or after the entry")
 
 
@@ -59,7 +59,7 @@ def cases(tier, seed, shard, nshards):
                     yield {"k": "enum", "text": render(before, [fs], after)}
                 idx += 1
     r = rng_for(seed, shard, "c11")
-    n = tier_pick(tier, 16000, 500000) // nshards
+    n = tier_pick(tier, 32000, 2500000) // nshards
     ws = ["", " ", "\n ", "  "]
     for i in range(n):
         nd = r.randint(0, 3)
